@@ -56,6 +56,14 @@ def trees_for(payload, for_search=False, flags=False):
               chain("xor", vs[:4] + [gen.mk("or", vs[0], vs[1]), gen.mk("or", vs[1], vs[2]), gen.mk("or", vs[2], vs[3]), gen.mk("or", vs[0], vs[3]), gen.mk("or", vs[0], vs[2]), gen.mk("or", vs[1], vs[3])]),
               chain("or", vs[:7] + [gen.mk("and", vs[0], vs[7])]), chain("and", vs[:7] + [gen.mk("or", vs[0], vs[7])]),
               chain("or", [gen.mk("not", vs[0])] + vs[1:10])]
+    # two connectives under a third, over three names in every arrangement (7 nodes: beyond the exhaustive family): shared operands in each
+    # of the four positions, e.g. (q & p) | (r & p)
+    import itertools as _it
+    three = [_N(name=nm) for nm in "pqr"]
+    for o1, o2, o3 in _it.product(("and", "or", "xor"), repeat=3):
+        for a_, b_, c_, d_ in _it.product(range(3), repeat=4):
+            if len({a_, b_, c_, d_}) >= 2:
+                trees.append(gen.mk(o1, gen.mk(o2, _N(name="pqr"[a_]), _N(name="pqr"[b_])), gen.mk(o3, _N(name="pqr"[c_]), _N(name="pqr"[d_]))))
     # shared sub-terms (the same object used twice) and both operand orders
     a = gen.build(gen.random_shape(rng, len(leaves), 2), leaves)
     trees += [PP.AndPredicate(a, a), PP.OrPredicate(a, PP.NotPredicate(a)), PP.XorPredicate(PP.NotPredicate(a), a)]
